@@ -20,6 +20,7 @@ import (
 	"context"
 	"fmt"
 	"reflect"
+	"sort"
 	"strings"
 	"sync"
 	"sync/atomic"
@@ -43,7 +44,7 @@ type SessionWindow struct {
 	// mu is used to protect concurrent access to window data
 	mu sync.RWMutex
 	// sessionMap stores session data for different keys
-	sessionMap map[string]*session
+	sessionMap map[string][]*session
 	// outputChan is a channel for sending data when window triggers
 	outputChan chan []types.Row
 	// callback is an optional callback function called when window triggers
@@ -135,7 +136,7 @@ func NewSessionWindow(config types.WindowConfig) (*SessionWindow, error) {
 	return &SessionWindow{
 		config:            config,
 		timeout:           timeout,
-		sessionMap:        make(map[string]*session),
+		sessionMap:        make(map[string][]*session),
 		outputChan:        make(chan []types.Row, bufferSize),
 		ctx:               ctx,
 		cancelFunc:        cancel,
@@ -212,34 +213,60 @@ func (sw *SessionWindow) Add(data any) {
 	key := extractSessionCompositeKey(data, sw.config.GroupByKeys)
 
 	// Get or create session
-	s, exists := sw.sessionMap[key]
-	if !exists {
-		// Create new session
-		// Use the actual timestamp of the first data point as session start
-		// No alignment needed - session starts from when first data arrives
+	// A key may hold several open sessions at once: an event further than the
+	// timeout from every open session of its key starts a new one (the earlier
+	// session stays open until the watermark passes its end), an event within the
+	// timeout of a session joins it, and an event that bridges two sessions
+	// merges them.
+	var s *session
+	open := sw.sessionMap[key]
+	kept := make([]*session, 0, len(open)+1)
+	for _, cand := range open {
+		// A session covers [start, lastActive+timeout): an event exactly one
+		// timeout away is outside it, whether or not the session already expired.
+		if !timestamp.After(cand.slot.Start.Add(-sw.timeout)) || !timestamp.Before(cand.lastActive.Add(sw.timeout)) {
+			kept = append(kept, cand)
+			continue
+		}
+		if s == nil {
+			s = cand
+			kept = append(kept, cand)
+			continue
+		}
+		// bridge: fold cand into s
+		for i := range cand.data {
+			cand.data[i].Slot = s.slot
+		}
+		s.data = append(s.data, cand.data...)
+		if cand.slot.Start.Before(*s.slot.Start) {
+			s.slot.Start = cand.slot.Start
+		}
+		if cand.lastActive.After(s.lastActive) {
+			s.lastActive = cand.lastActive
+		}
+	}
+	if s == nil {
 		start := timestamp
 		end := start.Add(sw.timeout)
-		slot := types.NewTimeSlot(&start, &end)
-
 		s = &session{
 			data:       []types.Row{},
 			lastActive: timestamp,
-			slot:       slot,
+			slot:       types.NewTimeSlot(&start, &end),
 		}
-		sw.sessionMap[key] = s
+		kept = append(kept, s)
 	} else {
-		// Update session end time
+		if timestamp.Before(*s.slot.Start) {
+			start := timestamp
+			s.slot.Start = &start
+		}
 		if timestamp.After(s.lastActive) {
 			s.lastActive = timestamp
-			// Extend session end time
-			newEnd := timestamp.Add(sw.timeout)
-			if newEnd.After(*s.slot.End) {
-				s.slot.End = &newEnd
-			}
 		}
 	}
+	newEnd := s.lastActive.Add(sw.timeout)
+	s.slot.End = &newEnd
+	sw.sessionMap[key] = kept
 
-	// Add data to session
 	row.Slot = s.slot
 	s.data = append(s.data, row)
 }
@@ -395,37 +422,46 @@ func (sw *SessionWindow) checkAndTriggerSessions(watermarkTime time.Time) {
 }
 
 func (sw *SessionWindow) collectExpiredSessions(currentTime time.Time) [][]types.Row {
-	expiredKeys := []string{}
-	for key, s := range sw.sessionMap {
-		// For event time, use slot.End to determine if session expired
-		// Session expires when watermark >= session end time
-		// For processing time, use lastActive + timeout
-		if s.slot.End != nil && !currentTime.Before(*s.slot.End) {
-			expiredKeys = append(expiredKeys, key)
-		} else if currentTime.Sub(s.lastActive) > sw.timeout {
-			expiredKeys = append(expiredKeys, key)
-		}
-	}
-
 	resultsToSend := make([][]types.Row, 0)
 	allowedLateness := sw.config.AllowedLateness
 
-	for _, key := range expiredKeys {
-		s := sw.sessionMap[key]
-		if len(s.data) > 0 {
+	for key, sessions := range sw.sessionMap {
+		var expired []*session
+		open := make([]*session, 0, len(sessions))
+		for _, s := range sessions {
+			if (s.slot.End != nil && !currentTime.Before(*s.slot.End)) || currentTime.Sub(s.lastActive) > sw.timeout {
+				expired = append(expired, s)
+			} else {
+				open = append(open, s)
+			}
+		}
+		if len(expired) == 0 {
+			continue
+		}
+		if len(open) == 0 {
+			delete(sw.sessionMap, key)
+		} else {
+			sw.sessionMap[key] = open
+		}
+		// sessions of one key are emitted in time order
+		sort.Slice(expired, func(i, j int) bool { return expired[i].slot.Start.Before(*expired[j].slot.Start) })
+		for _, s := range expired {
+			if len(s.data) == 0 {
+				continue
+			}
 			result := make([]types.Row, len(s.data))
 			copy(result, s.data)
 			resultsToSend = append(resultsToSend, result)
 
+			// If allowedLateness > 0, keep session open for late data
 			if allowedLateness > 0 {
 				closeTime := s.slot.End.Add(allowedLateness)
-				sw.triggeredSessions[key] = &sessionInfo{
+				sw.triggeredSessions[fmt.Sprintf("%s\x00%d", key, s.slot.Start.UnixNano())] = &sessionInfo{
 					session:   s,
 					closeTime: closeTime,
 				}
 			}
 		}
-		delete(sw.sessionMap, key)
 	}
 
 	return resultsToSend
@@ -511,16 +547,18 @@ func (sw *SessionWindow) Trigger() {
 
 	// Collect all results first
 	resultsToSend := make([][]types.Row, 0)
-	for _, s := range sw.sessionMap {
-		if len(s.data) > 0 {
-			// Trigger session window
-			result := make([]types.Row, len(s.data))
-			copy(result, s.data)
-			resultsToSend = append(resultsToSend, result)
+	for _, sessions := range sw.sessionMap {
+		for _, s := range sessions {
+			if len(s.data) > 0 {
+				// Trigger session window
+				result := make([]types.Row, len(s.data))
+				copy(result, s.data)
+				resultsToSend = append(resultsToSend, result)
+			}
 		}
 	}
 	// Clear all sessions
-	sw.sessionMap = make(map[string]*session)
+	sw.sessionMap = make(map[string][]*session)
 
 	// Capture callback under the lock; release before sending to avoid blocking.
 	callback := sw.callback
@@ -570,7 +608,7 @@ func (sw *SessionWindow) Reset() {
 	}
 
 	// Clear session data
-	sw.sessionMap = make(map[string]*session)
+	sw.sessionMap = make(map[string][]*session)
 	sw.triggeredSessions = make(map[string]*sessionInfo)
 	sw.initialized = false
 	sw.initChan = make(chan struct{})
